@@ -363,8 +363,9 @@ pub fn nodes_to_lean(nodes: &[Node], counts_only: bool, ranks: &Ranks) -> String
     fn one(n: &Node, counts_only: bool, ranks: &Ranks) -> String {
         let sub = nodes_to_lean(&n.subs, counts_only, ranks);
         match &n.agg {
-            Agg::Metric { kind, field, missing, .. } => match kind {
-                MK::Percentiles | MK::Cardinality | MK::TopHits => "N".into(),
+            Agg::Metric { kind, field, missing, desc, k } => match kind {
+                MK::TopHits => format!("TH,{},{},{},{}", field.id(), field.id(), k, if *desc { "d" } else { "a" }),
+                MK::Percentiles | MK::Cardinality => "N".into(),
                 _ if counts_only || field.is_str() => "N".into(),
                 _ => format!("M,{},{}", field.id(), opt(*missing)),
             },
